@@ -6,6 +6,7 @@ import (
 	"context"
 	"encoding/json"
 	"fmt"
+	"io"
 	"mime/multipart"
 	"net/http"
 	"net/url"
@@ -37,7 +38,9 @@ type Case struct {
 	// json / form / multipart / text
 	Schema   string `json:"schema,omitempty"`
 	Encoding string `json:"encoding,omitempty"` // raw JSON of the media type's encoding map
-	Defaults bool   `json:"defaults,omitempty"` // validate with default-setting on (the library's default) instead of skipped
+	// BodyStyle: "" a body of known length | reader (one-shot reader, ContentLength 0) | chunked (ContentLength -1)
+	BodyStyle string `json:"body_style,omitempty"`
+	Defaults  bool   `json:"defaults,omitempty"` // validate with default-setting on (the library's default) instead of skipped
 	// DeclKey: how the media type is declared: "" its plain name | "subtype-wildcard" (application/*) |
 	// "wildcard" (*/*) | "params" (name; charset=utf-8, sent verbatim). Whichever key selects the media
 	// type, its schema and encoding apply.
@@ -119,12 +122,7 @@ var defaultsOn bool
 
 func validateBody(o *h.Outcome, doc *openapi3.T, header string, body []byte, noBody bool, opts *openapi3filter.Options) (error, bool) {
 	route, _ := kinx.Route(doc, "/r", "POST")
-	var req *http.Request
-	if noBody {
-		req, _ = http.NewRequest("POST", "http://x/r", nil)
-	} else {
-		req, _ = http.NewRequest("POST", "http://x/r", bytes.NewReader(body))
-	}
+	req := newRequest(body, noBody)
 	if header != "" {
 		req.Header.Set("Content-Type", header)
 	}
@@ -142,12 +140,7 @@ func validateBody(o *h.Outcome, doc *openapi3.T, header string, body []byte, noB
 		return nil, false
 	}
 	// the same through ValidateRequest on a fresh request
-	var req2 *http.Request
-	if noBody {
-		req2, _ = http.NewRequest("POST", "http://x/r", nil)
-	} else {
-		req2, _ = http.NewRequest("POST", "http://x/r", bytes.NewReader(body))
-	}
+	req2 := newRequest(body, noBody)
 	if header != "" {
 		req2.Header.Set("Content-Type", header)
 	}
@@ -162,7 +155,39 @@ func validateBody(o *h.Outcome, doc *openapi3.T, header string, body []byte, noB
 	return e1, true
 }
 
+// bodyStyle: how the request under judgement carries its body (Case.BodyStyle)
+var bodyStyle string
+
+// newRequest builds the request the way the style says: a body a client library knows the length of,
+// or a one-shot reader of unknown length (ContentLength 0 with a body, or -1 as for a chunked upload)
+func newRequest(body []byte, noBody bool) *http.Request {
+	if noBody {
+		req, _ := http.NewRequest("POST", "http://x/r", nil)
+		return req
+	}
+	if bodyStyle == "" || len(body) == 0 {
+		req, _ := http.NewRequest("POST", "http://x/r", bytes.NewReader(body))
+		return req
+	}
+	req, _ := http.NewRequest("POST", "http://x/r", io.NopCloser(bytes.NewReader(body)))
+	if bodyStyle == "chunked" {
+		req.ContentLength = -1
+	}
+	return req
+}
+
 func check(c Case) (o h.Outcome) {
+	bodyStyle = c.BodyStyle
+	defer func() { bodyStyle = "" }()
+	if c.BodyStyle != "" {
+		o.Class("body-style:%s", c.BodyStyle)
+	}
+	o2 := check2(c)
+	o2.Classes = append(o.Classes, o2.Classes...)
+	return o2
+}
+
+func check2(c Case) (o h.Outcome) {
 	switch c.Mode {
 	case "select":
 		return checkSelect(c)
@@ -671,6 +696,14 @@ func formValue(t *rapid.T, s M) any {
 }
 
 func gen(t *rapid.T) Case {
+	c := gen2(t)
+	if c.Mode != "missing" {
+		c.BodyStyle = rapid.SampledFrom([]string{"", "", "reader", "chunked"}).Draw(t, "bodystyle")
+	}
+	return c
+}
+
+func gen2(t *rapid.T) Case {
 	switch rapid.IntRange(0, 9).Draw(t, "mode") {
 	case 0, 1:
 		n := rapid.IntRange(1, 4).Draw(t, "nkeys")
